@@ -63,7 +63,7 @@ func (f *funcAssertionNode) DefaultTrigger() annotation.ProducingAnnotationTrigg
 	if root := f.Root(); root != nil && f.call != nil && root.HasContract(f.decl) && f.decl.Pkg() == root.Pass().Pkg {
 		return &annotation.FuncReturn{
 			TriggerIfNilable: &annotation.TriggerIfNilable{
-				Ann: annotation.NewCallSiteRetKey(f.decl, 0, root.LocationOf(f.call))}}
+				Ann: annotation.NewCallSiteRetKey(f.decl, 0, root.CallSiteLocationOf(f.call))}}
 	}
 
 	if f.decl.Type().(*types.Signature).Recv() != nil {
